@@ -49,6 +49,32 @@ def resolve_target(target):
     return obj, cls
 
 
+def run_syntactic(rep, modnames, pid):
+    """AST / call-graph obligations (frame and effect clauses)."""
+    n = 0
+    for m in modnames:
+        mod = importlib.import_module(m)
+        for s in getattr(mod, "SYNTACTIC", []):
+            if pid is not None and pid not in s.props:
+                continue
+            t0 = time.time()
+            try:
+                res = s.check()
+            except Exception as e:  # noqa: BLE001
+                rep.undecided_obligation(f"{s.target} :: {s.what}", f"syntactic analysis could not run: {type(e).__name__}: {e}")
+                continue
+            dt = (time.time() - t0) / max(1, len(res))
+            rep.functions_under_contract.setdefault(s.target, "T1-syntactic (frame/effect clause decided on the AST of the working tree)")
+            for label, ok, detail in res:
+                n += 1
+                rep.add_obligation(s.target, label, "discharged" if ok else "refuted", "ast", dt, detail or None)
+                if not ok:
+                    # a syntactic clause is sufficient, not necessary: undecided, the
+                    # bounded monitor of the same property looks for a failing input
+                    rep.undecided_obligation(f"{s.target.split(':')[1]} :: {label}", f"syntactic frame clause no longer holds: {detail}")
+    return n
+
+
 def load_contracts(modnames):
     reg = Registry()
     out = []
@@ -143,6 +169,11 @@ def run_t1(rep: Report, modnames, pid=None, quick=True, monitor_cases=200):
     """Verify every contract in `modnames` that serves property `pid`."""
     reg, cs = load_contracts(modnames)
     cs = [c for c in cs if pid is None or pid in c.props]
+    run_syntactic(rep, modnames, pid)
+    if any("ast" == o["backend"] for o in rep.obligations):
+        a = "frame.py: syntactic clauses (purity, seed threading, copy completeness, thread-keyed state, key coverage) are sufficient conditions checked on the AST; dynamic attribute access (getattr/setattr with computed names, **kwargs forwarding through unknown callables) is not followed"
+        if a not in rep.assumptions:
+            rep.assumptions.append(a)
     try:
         baseline = json.load(open(BASELINE))
     except (OSError, ValueError):
